@@ -107,7 +107,8 @@ def sweep_configs(tier):
         for be in ((False,) if tier == 'quick' else (False, True)):
             cfg.append(('mul', n, m, 'KARATSUBA', be))
             cfg.append(('mul', n, m, 'KARATSUBA_PLAIN', not be))
-    wide_sq = [48, 49, 50, 53] if tier == 'quick' else [47, 48, 49, 50, 51, 52, 53, 54, 96]
+    # (the split path of the default squarer starts at 48 - bar 49 and 53 - and treats odd and even widths differently)
+    wide_sq = [48, 49, 50, 51, 53, 55, 58] if tier == 'quick' else list(range(47, 62)) + [63, 64, 65, 96, 97, 101, 103]
     for n in wide_sq:
         for mode in (('DEFAULT',) if tier == 'quick' else SQ_MODES):
             if mode == 'POW2_M1' and n > 54:
@@ -245,7 +246,7 @@ SPEC = {
     'rule': ('Finite sweep (sharded): generate_mul for all width pairs 1..5 (1..8 thorough, plus 9..12 sampled rows) x 6 modes x '
              'both endiannesses and generate_square n=1..8 (1..10) x 2 modes x both endiannesses, exhaustive over all operand '
              'values up to 14 input bits (else 2^11 / 2^14 seeded rows + corner operands); recursion-triggering widths '
-             '(Karatsuba 18, 20, 21, 24 ..., squares 48, 49, 50, 53 ...); lopsided shapes 1-3 (1-5) x 9-16, 24, 30 (9-33, 40, 48) in both '
+             '(Karatsuba 18, 20, 21, 24 ..., squares 48-51, 53, 55, 58; thorough 47-61, 63-65, 96, 97, 101, 103); lopsided shapes 1-3 (1-5) x 9-16, 24, 30 (9-33, 40, 48) in both '
              'orders x every mode. Hypothesis part: every add_mul* / add_square* on '
              'arbitrary (internal, repeated, shared) gates of a generated host circuit. Oracle: bit-sliced integer product of the '
              'reference operand vectors == decoded result in the requested endianness, documented result length, host '
